@@ -48,12 +48,17 @@ Definition write_sec (c : core) (name : Z) (cs : list col) (l : klib) (acc : lis
     let '(c', id) := ext_type_id c name in (c', acc ++ [mkXsec name id (wrows cs l)])
   else (c, acc).
 
+(* the three optional sections in the order write() emits them; the libraries are those of [c]
+   (get_extension_type_ID touches only the two type lists) *)
+Definition sec_specs (c : core) : list (Z * list col * klib) :=
+  [(XS_TRIGGERS, sec_trig, trig_l c); (XS_LABELSET, sec_lset, lset_l c); (XS_LABELINC, sec_linc, linc_l c)].
+
 Definition write_ext (c : core) : core * xfile :=
   let xe := if nonempty (ext_l c) then Some (wrows sec_ext (ext_l c)) else None in
-  let '(c1, s1) := write_sec c XS_TRIGGERS sec_trig (trig_l c) [] in
-  let '(c2, s2) := write_sec c1 XS_LABELSET sec_lset (lset_l c1) s1 in
-  let '(c3, s3) := write_sec c2 XS_LABELINC sec_linc (linc_l c2) s2 in
-  (c3, mkXfile xe s3).
+  let r := fold_left (fun (acc : core * list xsec) (sp : Z * list col * klib) =>
+                        write_sec (fst acc) (fst (fst sp)) (snd (fst sp)) (snd sp) (snd acc))
+                     (sec_specs c) (c, []) in
+  (fst r, mkXfile xe (snd r)).
 
 (* sequence.py:1357-1378 set_extension_string_ID: None = ValueError('Numeric or string ID is not unique') *)
 Definition set_ext_string_id (tabs : list Z * list Z) (name id : Z) : option (list Z * list Z) :=
